@@ -10,7 +10,7 @@ import subprocess
 from . import tlc, decfam, decio, decquery
 from . import chainio as cio
 from .c12 import flatten_universe, random_chain
-from .core import Outcome, ensure_repo_on_path, finish, pmap, Machinery
+from .core import Outcome, ensure_repo_on_path, finish, pmap, Machinery, chunked
 
 PROP = "C15"
 NODE = re.compile(r'^\t(\w+) \[label=<(.*)> ?(.*)\]$')
@@ -170,6 +170,7 @@ def build_session(args):
     return {"sid": sid, "views": session}
 
 
+@chunked()
 def judge(sessions, wd, o, what):
     tf = wd / f"trace_{len(list(wd.glob('trace_*.json')))}.json"
     tf.write_text(json.dumps([[{"chain": v["chain"], "obs": v["obs"]} for v in s["views"]] for s in sessions]))
